@@ -45,6 +45,7 @@ type tcase struct {
 	IssuerSelfSigned bool   `json:"issuerSelfSigned"`
 	CertArg          string `json:"certArg"`
 	Region           string `json:"region"`
+	Imp              string `json:"imp"`
 	SigKey           string `json:"sigKey"`
 	Emb              embT   `json:"emb"`
 	Maker            string `json:"maker"`
@@ -67,6 +68,78 @@ type pki struct {
 	oCA, wCA, rRoot *x509.Certificate
 	leaf7, leaf8    *x509.Certificate // the `cert` argument: serial of the response / another serial
 	bigSerial       *big.Int
+	imp             map[string]*impSet // "<self|inter>/<subject|keyids|serial|all>": certificates that copy identity attributes of the issuer
+}
+
+// impSet: impostor certificates.  None of them involves the issuer's key.
+type impSet struct {
+	dSelf *x509.Certificate // responder key D, self-signed, looks like the issuer
+	oCA   *x509.Certificate // CA key O, self-signed, looks like the issuer ...
+	dByO  *x509.Certificate // ... and the responder certificate it issued (issuer DN / authority key id = the real issuer's)
+	wCA   *x509.Certificate // CA key W, self-signed, looks like the issuer (signs responses directly)
+}
+
+// impersonate copies identity attributes of iss into the template: everything short of the key.
+func impersonate(tmpl *x509.Certificate, iss *x509.Certificate, what string) {
+	if what == "subject" || what == "all" {
+		tmpl.RawSubject = iss.RawSubject
+		tmpl.Subject = iss.Subject
+	}
+	if what == "keyids" || what == "all" {
+		tmpl.SubjectKeyId = iss.SubjectKeyId
+		tmpl.AuthorityKeyId = iss.AuthorityKeyId
+	}
+	if what == "serial" || what == "all" {
+		tmpl.SerialNumber = iss.SerialNumber
+	}
+}
+
+func (p *pki) buildImpostors() error {
+	p.imp = map[string]*impSet{}
+	for _, variant := range []string{"self", "inter"} {
+		iss := p.issuer(variant == "self")
+		for _, what := range []string{"subject", "keyids", "serial", "all"} {
+			mk := func(cn, key string, isCA bool, parent *x509.Certificate, parentKey string, copyAttrs bool) (*x509.Certificate, error) {
+				serialCtr++
+				tmpl := &x509.Certificate{SerialNumber: big.NewInt(serialCtr), Subject: pkix.Name{CommonName: cn + " " + p.name, Organization: []string{"verif C48"}},
+					NotBefore: time.Now().Add(-24 * time.Hour), NotAfter: time.Now().Add(240 * time.Hour), BasicConstraintsValid: true, IsCA: isCA,
+					KeyUsage: x509.KeyUsageDigitalSignature}
+				if isCA {
+					tmpl.KeyUsage |= x509.KeyUsageCertSign | x509.KeyUsageCRLSign
+				} else {
+					tmpl.ExtKeyUsage = []x509.ExtKeyUsage{x509.ExtKeyUsageOCSPSigning}
+				}
+				if copyAttrs {
+					impersonate(tmpl, iss, what)
+				}
+				par := parent
+				if par == nil {
+					par = tmpl
+				}
+				der, err := x509.CreateCertificate(rand.Reader, tmpl, par, p.keys[key].Public(), p.keys[parentKey])
+				if err != nil {
+					return nil, err
+				}
+				return x509.ParseCertificate(der)
+			}
+			var set impSet
+			var err error
+			if set.dSelf, err = mk("responder D", "D", false, nil, "D", true); err != nil {
+				return err
+			}
+			if set.oCA, err = mk("other CA O", "O", true, nil, "O", true); err != nil {
+				return err
+			}
+			if set.dByO, err = mk("responder D", "D", false, set.oCA, "O", what == "serial"); err != nil {
+				return err
+			}
+			if set.wCA, err = mk("wrong issuer W", "W", true, nil, "W", true); err != nil {
+				return err
+			}
+			p.imp[variant+"/"+what] = &set
+		}
+	}
+	return nil
 }
 
 func genKey(kind string) (crypto.Signer, error) {
@@ -141,6 +214,9 @@ func newPKI(name string, kinds [5]string) (*pki, error) {
 	p.bigSerial, _ = new(big.Int).SetString("00c3a1f2e4d5b6a798897a6b5c4d3e2f1a0b9c8d", 16)
 	step(&p.leaf7, "leaf", "D", p.iSelf, "I", false, nil, big.NewInt(7))
 	step(&p.leaf8, "leaf", "D", p.iSelf, "I", false, nil, big.NewInt(8))
+	if err == nil {
+		err = p.buildImpostors()
+	}
 	return p, err
 }
 
@@ -154,6 +230,25 @@ func (p *pki) issuer(selfSigned bool) *x509.Certificate {
 // embedded certificate and responder certificate for a model configuration
 func (p *pki) material(c *tcase) (emb, responder *x509.Certificate, priv crypto.Signer, err error) {
 	priv = p.keys[c.SigKey]
+	if c.Imp != "" && c.Imp != "none" {
+		variant := "inter"
+		if c.IssuerSelfSigned {
+			variant = "self"
+		}
+		set := p.imp[variant+"/"+c.Imp]
+		if set == nil {
+			return nil, nil, nil, fmt.Errorf("no impostor material for %s/%s", variant, c.Imp)
+		}
+		switch c.Signer {
+		case "selfsigned":
+			return set.dSelf, set.dSelf, priv, nil
+		case "delegated-other":
+			return set.dByO, set.dByO, priv, nil
+		case "wrongissuer":
+			return nil, set.wCA, priv, nil
+		}
+		return nil, nil, nil, fmt.Errorf("signer %s cannot impersonate", c.Signer)
+	}
 	switch c.SigKey {
 	case "I":
 		responder = p.issuer(c.IssuerSelfSigned)
@@ -665,7 +760,7 @@ func TestC48(t *testing.T) {
 		}
 		idx++
 		fl := []*pki{pkis[idx%len(pkis)]}
-		if allFlavours {
+		if allFlavours || (c.Imp != "" && c.Imp != "none") { // impersonation cases are few: every flavour in both tiers
 			fl = pkis
 		}
 		for _, p := range fl {
@@ -731,7 +826,11 @@ func replayCase(c *tcase, p *pki, idx int, everyByte bool, out *vutil.Out, viol 
 			if ok, why, judged := authorized(d, issuerArg); !judged {
 				cnt["harness_cannot_judge"]++
 			} else if !ok {
-				viol("ocsp-unauthorized-accepted:"+c.Signer+":"+c.Region, "with an issuer given, a response is accepted that is signed neither by the issuer nor by an embedded certificate the issuer signed ("+why+")",
+				sig := "ocsp-unauthorized-accepted:" + c.Signer + ":" + c.Region
+				if c.Imp != "" && c.Imp != "none" {
+					sig += ":impersonates-" + c.Imp
+				}
+				viol(sig, "with an issuer given, a response is accepted that is signed neither by the issuer nor by an embedded certificate the issuer signed ("+why+")",
 					det(map[string]any{"pos": pos, "input": fmt.Sprintf("%x", d)}))
 			}
 		}
@@ -766,7 +865,7 @@ func replayCase(c *tcase, p *pki, idx int, everyByte bool, out *vutil.Out, viol 
 			}
 		}
 	}
-	key := fmt.Sprintf("%s|%s|%s|%v|%v|%s|%s|%s", c.Signer, c.RespID, c.Status, c.IssuerGiven, c.IssuerSelfSigned, c.CertArg, c.Region, p.name)
+	key := fmt.Sprintf("%s|%s|%s|%v|%v|%s|%s|%s|%s", c.Signer, c.RespID, c.Status, c.IssuerGiven, c.IssuerSelfSigned, c.CertArg, c.Region, c.Imp, p.name)
 	if c.Region == "none" {
 		out.Case(key)
 		judge(der, "none", -1)
